@@ -97,6 +97,7 @@ def c_cases(draw: Any, python_only: bool = False, stride: bool = False) -> Case:
         "opmode": traditional and sc is None and draw(st.booleans()),  # (strides are a matter of the descriptor-driven standard mode)
         "endian": draw(st.sampled_from(["both", "little", "big"])),
         "align": draw(st.sampled_from([0, 0, 0, 1, 2, 4, 8])) if sc is None else sc.config["align"],
+        "variation": draw(cexec.build_variation()),
     }
     if sc is not None:
         cfg["stride_bytes"] = sc.config["stride_bytes"]
@@ -156,7 +157,9 @@ def _nontrivial(m: Message, raw: List[int]) -> bool:
 
 
 def run_c(case: Case, stats: Stats) -> None:
-    cfg = _cfg(case.config["build"])
+    cfg = cexec.apply_variation(_cfg(case.config["build"]), case.config.get("variation", {}))
+    if cfg.pre_includes or cfg.extra or cfg.lib_std:
+        stats.count("cfg:build_variation")
     if case.config.get("align"):
         for f in case.unit.files:
             if not any(o[0] == "c.struct_packing_alignment" for o in f.options):
@@ -168,7 +171,7 @@ def run_c(case: Case, stats: Stats) -> None:
     if opmode and cfg.sanitize and any(len(v[0]) > 1500 for v in case.raws.values() if v):
         # thousands of unrolled statements: sanitizer instrumentation of one such function takes gcc minutes; the
         # guard-page build still traps every access outside the buffer and the struct
-        cfg = _cfg("guard-O0")
+        cfg = cexec.apply_variation(_cfg("guard-O0"), case.config.get("variation", {}))
         stats.count("cfg:huge_unrolled->guard")
     stats.count("cfg:san" if cfg.sanitize else "cfg:guard")
     if opmode:
